@@ -321,3 +321,178 @@ def table_provenance(P, rep, rule="K2"):
                           "tables of adjacent sections are indexed with the same segment number", key="%s|%s|segcount" % (rule, name),
                           witness="section with fewer segments than the feature")
     rep.floor(rule, n, 22, "table provenance facts")
+
+
+# ------------------------------------------------------------------------------------------------
+def membership(P, rep, rule="M1"):
+    rep.rule(rule, "slab membership is exactly top_truncation <= d <= thickness and 0 <= a <= max length (signed distance below the surface); "
+                   "fault membership |d| <= thickness/2 and 0 < a <= max length; both are gated by starting_depth <= depth <= maximum_depth "
+                   "(inclusive); d and a are the two distances returned by distance_point_from_curved_planes")
+    for name, cls in LINE.items():
+        F = P.func(cls + "::properties")
+        R = lambda x: norm.render(P, x, nocast=True).replace(" ", "")
+        sw = None
+        from .layout import find_switch_on_kind
+        sw = find_switch_on_kind(P, F)[0]
+        gates = [a for a in F.ancestors(sw) if a.get("k") == "IfStmt"]
+        inner = gates[0] if gates else None
+        if inner is None:
+            rep.unknown(rule, "%s: membership if not found" % cls)
+            continue
+        conj = []
+
+        def split(c):
+            c = sc(c)
+            if c.get("k") == "BinaryOperator" and c.get("op") == "&&":
+                split(c["c"][0])
+                split(c["c"][1])
+            else:
+                conj.append(c)
+        split(inner["c"][0])
+
+        def normrel(c):
+            if c.get("k") != "BinaryOperator" or c.get("op") not in ("<", "<=", ">", ">="):
+                return R(c)
+            a, b, op = R(c["c"][0]), R(c["c"][1]), c["op"]
+            if op in (">", ">="):
+                a, b, op = b, a, {">": "<", ">=": "<="}[op]
+            return "%s %s %s" % (a, op, b)
+        got = sorted(normrel(c) for c in conj)
+        if name == "SubductingPlate":
+            want = sorted(["top_truncation_local <= distance_from_plane", "distance_from_plane <= thickness_local", "0 <= distance_along_plane",
+                           "distance_along_plane <= max_slab_length"])
+        else:
+            want = None
+            alts = [sorted(["std::fabs(distance_from_plane) <= (thickness_local*0.5)", "0 < distance_along_plane", "distance_along_plane <= max_fault_length"]),
+                    sorted(["std::fabs(distance_from_plane) <= (0.5*thickness_local)", "0 < distance_along_plane", "distance_along_plane <= max_fault_length"]),
+                    sorted(["fabs(distance_from_plane) <= (thickness_local*0.5)", "0 < distance_along_plane", "distance_along_plane <= max_fault_length"])]
+            want = got if got in alts else alts[0]
+        if got == want:
+            rep.ok(rule, "%s membership: %s" % (name, " && ".join(got)), F.nloc(inner), F.qn)
+        else:
+            rep.violation(rule, "%s membership is %s" % (name, " && ".join(got)), F.nloc(inner), F.qn, norm.render(P, inner["c"][0])[:200],
+                          "expected %s" % " && ".join(want), key="%s|%s|membership" % (rule, name),
+                          witness="points exactly on the slab top / at the slab tip / at distance thickness")
+        # provenance of d and a
+        decls = {x.get("n"): x for x in F.walk() if x.get("k") == "VarDecl" and x.get("c")}
+        okp = True
+        for v, fld in (("distance_from_plane", "distance_from_plane"), ("distance_along_plane", "distance_along_plane")):
+            if v not in decls or not R(decls[v]["c"][0]).endswith("." + fld):
+                okp = False
+        if okp:
+            rep.ok(rule, "%s: d, a taken from the fields of the same names of the curved-planes result" % name, F.loc, F.qn)
+        else:
+            rep.violation(rule, "%s: distance locals are not the corresponding result fields" % name, F.loc, F.qn, "", "distances swapped", key="%s|%s|fields" % (rule, name))
+        # depth gate
+        outer = None
+        for a in F.ancestors(inner):
+            if a.get("k") == "IfStmt" and "point_inside" in norm.render(P, a["c"][0]):
+                outer = a
+        conj.clear()
+        if outer is not None:
+            split(outer["c"][0])
+        rels = {normrel(c) for c in conj}
+        if {"depth <= maximum_depth", "starting_depth <= depth"} <= rels:
+            rep.ok(rule, "%s depth gate: starting_depth <= depth <= maximum_depth (inclusive)" % name, F.nloc(outer), F.qn)
+        else:
+            rep.violation(rule, "%s depth gate is %s" % (name, sorted(r for r in rels if "depth" in r and "point_inside" not in r)), F.nloc(outer) if outer else F.loc, F.qn, "",
+                          "expected the closed interval [min depth, max depth]", key="%s|%s|depthgate" % (rule, name), witness="point at depth exactly min/max depth")
+
+
+def plane_call_sites(P, rep, rule="M2"):
+    rep.rule(rule, "properties() and distance_to_feature_plane() of a line feature evaluate distance_point_from_curved_planes with the same "
+                   "arguments (a fault's properties additionally asks for the absolute distance) and the same starting radius "
+                   "get_depth_coordinate() + depth - starting_depth; distance_to_feature_plane returns (distance_from_plane, "
+                   "distance_along_plane) in that order and World::distance_to_plane forwards point, depth and name unchanged")
+    R = lambda F, x: norm.render(P, x, nocast=True).replace(" ", "")
+    for name, cls in LINE.items():
+        sites = {}
+        radius = {}
+        for fn in ("properties", "distance_to_feature_plane"):
+            F = P.func(cls + "::" + fn)
+            calls = [x for x in F.walk() if x.get("k") == "CallExpr" and P.d(x.get("callee")).get("qn", "").endswith("distance_point_from_curved_planes")]
+            if len(calls) != 1:
+                rep.unknown(rule, "%s::%s: %d calls to distance_point_from_curved_planes" % (cls, fn, len(calls)))
+                continue
+            C = sib.Canon(P, F)
+            sites[fn] = (F, calls[0], [C.e(a) for a in calls[0]["c"][1:]])
+            sr = [x for x in F.walk() if x.get("k") == "VarDecl" and x.get("n") == "starting_radius" and x.get("c")]
+            radius[fn] = C.e(sr[0]["c"][0]) if sr else None
+        if len(sites) != 2:
+            continue
+        a, b = sites["properties"][2], sites["distance_to_feature_plane"][2]
+        diff = [i for i in range(min(len(a), len(b))) if a[i] != b[i]]
+        allowed = [8] if name == "Fault" else []
+        if len(a) == len(b) and all(i in allowed for i in diff):
+            rep.ok(rule, "%s: same %d arguments at both call sites%s" % (name, len(a), " (only_positive differs: fault membership uses |d|)" if diff else ""), sites["properties"][0].nloc(sites["properties"][1]), cls)
+        else:
+            i = [j for j in diff if j not in allowed][0] if diff else -1
+            rep.violation(rule, "%s: argument %d differs: properties passes %s, distance_to_feature_plane passes %s" % (name, i, a[i] if i >= 0 else len(a), b[i] if i >= 0 else len(b)),
+                          sites["distance_to_feature_plane"][0].nloc(sites["distance_to_feature_plane"][1]), cls, "", "the public distance query does not report the distances the membership test uses",
+                          key="%s|%s|args|%d" % (rule, name, i), witness="distance_to_plane vs tag inside the feature")
+        want_r = "((p1.get_depth_coordinate() + p2) - this.starting_depth)"
+        if radius.get("properties") == radius.get("distance_to_feature_plane") and radius.get("properties") in (want_r, "((p2 + p1.get_depth_coordinate()) - this.starting_depth)"):
+            rep.ok(rule, "%s: starting_radius = get_depth_coordinate() + depth - starting_depth at both sites" % name, cls, cls)
+        else:
+            rep.violation(rule, "%s: starting radius is %s / %s" % (name, radius.get("properties"), radius.get("distance_to_feature_plane")), sites["properties"][0].loc, cls, "",
+                          "expected get_depth_coordinate() + depth - starting_depth at both sites", key="%s|%s|radius" % (rule, name), witness="feature with min depth > 0")
+        # returned pair
+        F = sites["distance_to_feature_plane"][0]
+        pd = [x for x in F.walk() if x.get("k") in ("CXXConstructExpr", "CXXTemporaryObjectExpr") and x.get("t", "").endswith("PlaneDistances") and len(x.get("c", [])) == 2]
+        if len(pd) == 1 and R(F, pd[0]["c"][0]).endswith(".distance_from_plane") and R(F, pd[0]["c"][1]).endswith(".distance_along_plane"):
+            rep.ok(rule, "%s: PlaneDistances(distance_from_plane, distance_along_plane)" % name, F.nloc(pd[0]), F.qn)
+        else:
+            rep.violation(rule, "%s: PlaneDistances built from %s" % (name, [R(F, a) for a in pd[0]["c"]] if pd else "?"), F.loc, F.qn, "", "distances swapped or replaced",
+                          key="%s|%s|pair" % (rule, name), witness="distance_to_plane on a dipping slab")
+    # PlaneDistances ctor and getters
+    ctor = [f for f in P.funcs_named("WorldBuilder::Objects::PlaneDistances::PlaneDistances") if len(f.params) == 2]
+    if len(ctor) != 1:
+        rep.unknown(rule, "PlaneDistances(double,double) not found")
+    else:
+        C = ctor[0]
+        m = {}
+        for ini in C.inits or []:
+            if ini.get("n") and ini.get("c"):
+                v = sc(ini["c"][0])
+                if v.get("k") == "DeclRefExpr" and v["r"] in C.params:
+                    m[ini["n"]] = C.params.index(v["r"])
+        if m == {"distance_from_surface": 0, "distance_along_surface": 1}:
+            rep.ok(rule, "PlaneDistances(from, along) initialises distance_from_surface, distance_along_surface in order", C.loc, C.qn)
+        else:
+            rep.violation(rule, "PlaneDistances constructor maps %s" % m, C.loc, C.qn, "", "fields swapped", key=rule + "|pd-ctor")
+        for g, fld in (("get_distance_from_surface", "distance_from_surface"), ("get_distance_along_surface", "distance_along_surface")):
+            G = P.func("WorldBuilder::Objects::PlaneDistances::" + g)
+            rets = [sc(x["c"][0]) for x in G.walk() if x.get("k") == "ReturnStmt" and x.get("c")]
+            if len(rets) == 1 and astq.is_this_field(P, rets[0], fld):
+                rep.ok(rule, "%s returns %s" % (g, fld), G.loc, G.qn)
+            else:
+                rep.violation(rule, "%s returns %s" % (g, norm.render(P, rets[0]) if rets else "?"), G.loc, G.qn, "", "getter returns the other distance", key="%s|%s" % (rule, g))
+    # World::distance_to_plane
+    W = P.func("WorldBuilder::World::distance_to_plane")
+    calls = [x for x in W.walk() if x.get("k") == "CXXMemberCallExpr" and P.d(x.get("callee")).get("n") == "distance_to_feature_plane"]
+    okw = False
+    why = "%d calls to distance_to_feature_plane" % len(calls)
+    if len(calls) == 1:
+        c = calls[0]
+        a = c["c"][1:]
+        decls = {x.get("n"): x for x in W.walk() if x.get("k") == "VarDecl" and x.get("c")}
+        pt = sc(a[0])
+        pt_ok = pt.get("k") == "DeclRefExpr" and pt.get("n") in decls and astq.is_ref_to(sc(decls[pt["n"]]["c"][0]).get("c", [None])[0], W.params[0])
+        nat = sc(a[1])
+        nat_ok = nat.get("k") == "DeclRefExpr" and nat.get("n") in decls and pt.get("n", "?") in norm.render(P, decls[nat["n"]]["c"][0])
+        depth_ok = astq.is_ref_to(a[2], W.params[1])
+        guard = astq.enclosing(W, c, ("IfStmt",))
+        g_ok = guard is not None and "get_name()" in norm.render(P, guard["c"][0]) and P.d(W.params[2]).get("n") in norm.render(P, guard["c"][0]) and "==" in norm.render(P, guard["c"][0])
+        par = W.parent.get(c["i"])
+        while par is not None and par.get("k") in norm.CASTS:
+            par = W.parent.get(par["i"])
+        tgt = sc(par["c"][0]) if par is not None and par.get("k") in ("BinaryOperator", "CXXOperatorCallExpr") and par.get("op") == "=" else None
+        rets = [sc(x["c"][0]) for x in W.walk() if x.get("k") == "ReturnStmt" and x.get("c")]
+        r_ok = tgt is not None and len(rets) == 1 and rets[0].get("r") == tgt.get("r")
+        okw = pt_ok and nat_ok and depth_ok and g_ok and r_ok
+        why = "point:%s natural:%s depth:%s name-test:%s result:%s" % (pt_ok, nat_ok, depth_ok, g_ok, r_ok)
+    if okw:
+        rep.ok(rule, "World::distance_to_plane forwards (point, natural(point), depth) to the feature whose name equals the argument and returns its result", W.loc, W.qn)
+    else:
+        rep.violation(rule, "World::distance_to_plane does not forward transparently (%s)" % why, W.loc, W.qn, "", "the public query reports distances of another point/feature",
+                      key=rule + "|world", witness="two slabs with different names")
